@@ -237,7 +237,7 @@ def rows_c12(d, rng):
 def check_C12():
     q = tier() == "quick"
     sizes = {"float": 90} if q else {"float": 600}
-    return run_direct_property("C12", None, sizes, 0, True, rows_fn=rows_c12, fams=("float",), mc_suffix="c12",
+    return run_direct_property("C12", None, sizes, 0, True, rows_fn=rows_c12, fams=("float",), mc_suffix="c12", sweeps=True,
                                extra_must=lambda ad: any(t == "Ord" for t in ad["traits"]) and len(ad["val"]) <= 2,
                                evidence_extra={"slice": "f32/f64 declarations with finite (+ optional bounds, every order) deriving PartialEq, Eq, PartialOrd, Ord; "
                                                "every entry point (constructor, TryFrom, FromStr, Deserialize in RON/MessagePack carrying NaN/inf, Default with a NaN default) "
